@@ -12,6 +12,15 @@ NOTES = {
  "C05-1a": "first run of C05 missed it (the object under test was never read between store and read-back); C05 gained read-only interference steps incl. wrapped Get batched with a committing item",
  "C12-1a": "first run of C12 classified it into an existing coarse known-finding bucket; the lenient-acceptance buckets now name the message-level shape / the operation",
  "C16-1b": "first run of C16 missed it (the library's own writer refuses to emit the field below 2.0); C16 now grafts the field into encoded requests",
+ "C17-2a": "first run of C17 missed it (every CN sat in an RDN of its own); C17 gained certificate layouts: several CNs in one multi-valued RDN, CN next to an OU, CN before O, issuer with its own CN",
+ "C17-2b": "first run of C17 missed it (one request per session); C17 gained part C: several requests on one session while the scripted SLUGS services change their answers between requests (exhaustive 2-3 step product + random sessions)",
+ "C18-2a": "first run of C18 missed it (needs a 7-event chain over two files; exhaustive depth was 5, random sequences too diffuse); C18 gained level-by-level exploration with situation pruning to depth 8 (quick) / 11 (thorough)",
+ "C19-2b": "first run of C19 missed it (one call per client object in the scripted part); C19 gained call sequences on one client object with a check that earlier results still read the same",
+ "C20-2b": "first run of C20 missed it (clients were built with explicit arguments and an empty configuration file); C20 gained clients configured from generated configuration files with canary passwords next to INI metacharacters",
+ "C13-2b": "first run ended in a harness error (the fixture store could not be built: destroy-then-register is part of the build); C13 now records the complete build history and judges it as a case",
+ "C11-2a": "a concurrency change: invisible to C11's sequential differential by nature, caught by C10 (schedules)",
+ "C13-2a": "a concurrency change: invisible to C13's sequential grid by nature, caught by C10 (schedules)",
+ "C16-2b": "a concurrency change: invisible to C16's sequential tables by nature, caught by C10 (schedules)",
  "C13-1b": "first run ended in a harness error (the fixture store could not be built); C13 now judges the fixture-building requests themselves",
 }
 rows = {}
